@@ -1,8 +1,13 @@
 """C06 — include resolution merges everything once and always terminates.
 
 Tie: hand model (lean/NmlVerif/Model/Include.lean) + correspondence on generated include graphs materialised on
-disk; the same graphs are evaluated against a harness-side oracle (reachability union) on the real loader.
+disk: result document (every member list, in order, id-less elements included) and the log of files parsed, real
+loader vs `Drivers/C06.lean`.  The same graphs are evaluated against a harness-side oracle on the real loader:
+reachability, every reachable file parsed exactly once, occurrence counts of the elements that have no id, id
+sets, duplicates, include entries left, errors, working-directory independence.
 """
+import collections
+import inspect
 import json
 import os
 import shutil
@@ -11,27 +16,43 @@ import tempfile
 
 import fw
 
-LEAN_PROPS = ["NmlVerif.Props.C06"]
+LEAN_PROPS = ["NmlVerif.Props.C06", "NmlVerif.Props.C06Tree"]
 LEVEL = "proof"
-RULE = ("random include graphs (1-7 files, nested directories, XML/HDF5/bad-extension/missing targets, self loops, "
-        "2/3-cycles, diamonds, cwd-relative and file-relative hrefs, colliding ids) x {file entry, string entry} x "
-        "{2 working directories}; a case is non-trivial when the entry has >=1 include that resolves; distinct = "
-        "distinct canonical (graph, cwd, entry) descriptions")
+RULE = ("include graphs: random (1-9 files) and templates (k-way diamonds over a shared file, ladders in which every "
+        "level includes all lower ones, one file including another several times, an HDF5 file and its includer sharing "
+        "an include, grandchildren including the entry) over nested directories; targets XML / HDF5 (with and without "
+        "includes of their own) / bad extension / missing; hrefs spelled plain, ./x, ../dir/x, sibling/../x, absolute, "
+        "relative to another directory; top-level elements with ids (colliding across files and inside one file), "
+        "without an id attribute (<property>, <ComponentType>; unique and identical across files) and with the id "
+        "omitted; x {read_neuroml2_file (entry path absolute / relative / dotted), read_neuroml2_string with and "
+        "without base_path, _read_neuroml2 directly, include_includes=False} x {2 working directories}; a case is "
+        "non-trivial when >=2 files are reachable; distinct = distinct canonical (graph, cwd, entry) descriptions")
 TRUST = [
-    "hand-written model of loaders._read_neuroml2/read_neuroml2_file/read_neuroml2_string and utils.add_all_to_document, tied by correspondence only",
-    "os.path.abspath/normpath modelled on component lists without symlinks; lxml/PyTables parsing of each single file not modelled",
+    "hand-written model of loaders._read_neuroml2/read_neuroml2_file/read_neuroml2_string, NeuroMLHdf5Loader.load + NeuroMLHdf5Parser.parse (include handling only) and utils.add_all_to_document, tied by correspondence only",
+    "os.path.abspath/normpath/exists modelled lexically on component lists (no symlinks; hrefs that walk through a non-existent directory are not generated); lxml/PyTables parsing of each single file not modelled",
+    "the log of files parsed is observed by wrapping NeuroMLLoader.load / NeuroMLHdf5Loader.load in the harness",
 ]
 ASSUMPTIONS = [
-    "theorems c06_union*/c06_terminates* assume H5Leaf (an included HDF5 file has no includes of its own); HDF5 files with includes are covered by correspondence only, cycles through an HDF5 file are a known finding",
-    "files do not change while being read; no symlinks",
+    "today's code (HDF5 parser keeps an include list of its own): theorems take H5Leaf (an included HDF5 file has no includes of its own); without it they fail (witness theorems, known findings C06:cycle-through-hdf5, C06:twice-through-hdf5). With fixes/C06-hdf5-shared-include-list.patch applied the same theorems hold without H5Leaf (sh = true); the harness detects which variant the tree under test is and uses the matching model",
+    "files do not change while being read; no symlinks (file identity = os.path.abspath)",
+    "a member list never mixes classes with and without an id attribute (true of everything the parser builds)",
 ]
 
-LISTS = ["izhikevich_cells", "iaf_cells", "pulse_generators", "exp_one_synapses"]
+ID_LISTS = ["izhikevich_cells", "iaf_cells", "pulse_generators", "exp_one_synapses"]
+NOID_LISTS = ["properties", "ComponentType"]
+ALL_LISTS = sorted(ID_LISTS + NOID_LISTS)
 DIRS = [["r"], ["r", "sub"], ["r", "sub", "deep"], ["r", "other"], ["elsewhere"]]
+DIRSET = {()} | {tuple(d[:i]) for d in DIRS for i in range(1, len(d) + 1)}
+SHARED_TAG = "common"       # an id-less payload that several files carry verbatim
 
 
-def _mk(list_name, cid, payload):
+def _mk(list_name, kind, cid, payload):
     import neuroml as n
+    if list_name == "properties":
+        return n.Property(tag=payload, value="v")
+    if list_name == "ComponentType":
+        return n.ComponentType(name=payload)
+    cid = cid if kind == "id" else None
     if list_name == "izhikevich_cells":
         return n.IzhikevichCell(id=cid, v0="-70mV", thresh="30mV", a="0.02", b="0.2", c="-65", d="6", notes=payload)
     if list_name == "iaf_cells":
@@ -42,6 +63,44 @@ def _mk(list_name, cid, payload):
     return n.ExpOneSynapse(id=cid, gbase="1nS", erev="0mV", tau_decay="1ms", notes=payload)
 
 
+# ---------------------------------------------------------------- lexical path helpers (harness side)
+def norm(parts):
+    acc = []
+    for c in parts:
+        if c in (".", ""):
+            continue
+        if c == "..":
+            acc = acc[:-1]
+        else:
+            acc.append(c)
+    return acc
+
+
+def is_abs(href):
+    return bool(href) and href[0] == ""
+
+
+def join(base, href):
+    return list(href) if is_abs(href) else list(base) + list(href)
+
+
+def walk_ok(base, href):
+    """would the operating system find its way along base/href (every intermediate directory exists, never above the root)"""
+    cur = [] if is_abs(href) else list(base)
+    for c in href[:-1]:
+        if c in (".", ""):
+            continue
+        if c == "..":
+            if not cur:
+                return False
+            cur.pop()
+        else:
+            cur.append(c)
+            if tuple(cur) not in DIRSET:
+                return False
+    return True
+
+
 def relpath(from_dir, to_path):
     """components of a relative href from from_dir to to_path (both component lists)"""
     i = 0
@@ -50,28 +109,86 @@ def relpath(from_dir, to_path):
     return [".."] * (len(from_dir) - i) + to_path[i:]
 
 
-def gen_case(rng, big=False):
-    nfiles = rng.randint(1, 9 if big else 6)
-    files = []
-    names = []
-    for i in range(nfiles):
-        d = rng.choice(DIRS[:4])
+def spell(rng, base, tgt, style=None):
+    rel = relpath(base, tgt)
+    s = rng.random() if style is None else style
+    if s < 0.47:
+        return rel
+    if s < 0.61:
+        return ["."] + rel
+    if s < 0.67:
+        return relpath(["r"], tgt)                       # relative to directory r (resolves only from there)
+    if s < 0.77:
+        return [".."] + [base[-1]] + rel if base else rel
+    if s < 0.87:
+        kids = [d[-1] for d in DIRS if d[:-1] == list(base)]
+        return [rng.choice(kids), ".."] + rel if kids else ["."] + rel
+    return [""] + list(tgt)                              # absolute
+
+
+def fix_hrefs(case):
+    """the model decides `os.path.exists` lexically; replace every spelling for which that is not what the operating
+    system would say (a lexically existing target reached through a directory that does not exist)"""
+    files = {tuple(f["path"]) for f in case["fs"]}
+    for f in case["fs"]:
+        base = f["path"][:-1]
+        out = []
+        for h in f["hrefs"]:
+            bases = [base] + case["cwds"]
+            bad = [b for b in bases if tuple(norm(join(b, h))) in files and not walk_ok(b, h)]
+            if bad:
+                tgt = norm(join(base, h))
+                h = relpath(base, tgt)
+                if [b for b in bases if tuple(norm(join(b, h))) in files and not walk_ok(b, h)]:
+                    continue
+            out.append(h)
+        f["hrefs"] = out
+    return case
+
+
+# ---------------------------------------------------------------- generator
+def _comps(rng, i, ids, rich):
+    out = []
+    for _ in range(rng.randint(0, 4)):
+        kind = "none" if rng.random() < 0.08 else "id"
+        out.append([rng.choice(ID_LISTS[: rng.randint(1, 4)]), kind, rng.choice(ids) if kind == "id" else "", "from_f%d" % i])
+    if rng.random() < 0.15 and out:
+        out.append(list(out[0][:3]) + ["dup_in_f%d" % i])            # duplicate id inside one file
+    if rng.random() < (0.85 if rich else 0.4):
+        for k in range(rng.randint(1, 3)):
+            pay = SHARED_TAG if rng.random() < 0.2 else "p%d_%d" % (i, k)
+            out.append([rng.choice(NOID_LISTS), "noid", "", pay])
+        rng.shuffle(out)
+    return out
+
+
+def _new_file(rng, i, kind=None, entry=False, others=()):
+    d = rng.choice(DIRS[:4])
+    if kind is None:
         r = rng.random()
         kind = "xml" if r < 0.78 else ("h5" if r < 0.93 else "other")
-        ext = {"xml": rng.choice([".nml", ".nml", ".xml"]), "h5": ".nml.h5", "other": ".txt"}[kind]
-        if i == 0:
-            kind, ext = ("xml", ".nml") if rng.random() < 0.9 else ("h5", ".nml.h5")
-        path = d + ["f%d%s" % (i, ext)]
-        names.append(path)
-        files.append({"path": path, "kind": kind, "hrefs": [], "comps": []})
-    ids = ["c%d" % k for k in range(rng.randint(2, 8))]
+    if entry:
+        kind = "xml" if rng.random() < 0.86 else "h5"
+    ext = {"xml": rng.choice([".nml", ".nml", ".xml"]), "h5": ".nml.h5", "other": ".txt"}[kind]
+    if entry and kind == "xml":
+        ext = ".nml"
+    name = "f%d%s" % (i, ext)
+    # now and then the same file name in another directory (file identity is the whole path, not the name)
+    twins = [o["path"] for o in others if o["kind"] == kind and o["path"][-1].endswith(ext) and o["path"][:-1] != d]
+    if twins and rng.random() < 0.25 and not any(o["path"] == d + [twins[0][-1]] for o in others):
+        name = twins[0][-1]
+    return {"path": d + [name], "kind": kind, "hrefs": [], "comps": []}
+
+
+def gen_random(rng, big):
+    nfiles = rng.randint(1, 9 if big else 6)
+    files = []
+    for i in range(nfiles):
+        files.append(_new_file(rng, i, entry=(i == 0), others=files))
+    names = [f["path"] for f in files]
     for i, f in enumerate(files):
-        for _ in range(rng.randint(0, 4)):
-            f["comps"].append([rng.choice(LISTS[: rng.randint(1, 4)]), rng.choice(ids), "from_f%d" % i])
-        if rng.random() < 0.15 and f["comps"]:
-            f["comps"].append(list(f["comps"][0][:2]) + ["dup_in_f%d" % i])   # duplicate id inside one file
         nh = rng.choice([0, 1, 1, 2, 2, 3])
-        if f["kind"] == "h5" and rng.random() < 0.7:
+        if f["kind"] == "h5" and rng.random() < 0.6:
             nh = 0
         if f["kind"] == "other":
             nh = 0
@@ -79,28 +196,122 @@ def gen_case(rng, big=False):
             r = rng.random()
             if r < 0.08:
                 tgt = f["path"]                                   # self loop
-            elif r < 0.16:
+            elif r < 0.13:
                 tgt = f["path"][:-1] + ["missing%d.nml" % rng.randint(0, 2)]
             else:
                 tgt = rng.choice(names)
-            style = rng.random()
-            base = f["path"][:-1]
-            if style < 0.6:
-                href = relpath(base, tgt)
-            elif style < 0.75:
-                href = ["."] + relpath(base, tgt)
-            elif style < 0.9:
-                href = relpath(["r"], tgt)                         # relative to directory r (resolves only from there)
-            else:
-                href = [".."] + [base[-1]] + relpath(base, tgt) if len(base) > 1 else relpath(base, tgt)
-            f["hrefs"].append(href)
-    cwds = [rng.choice(DIRS), ["elsewhere"]]
-    entry = "string" if (files[0]["kind"] == "xml" and rng.random() < 0.3) else "file"
-    base_given = rng.random() < 0.8
-    return {"fs": files, "cwds": cwds, "entry": entry, "base_given": base_given}
+            f["hrefs"].append(spell(rng, f["path"][:-1], tgt))
+    return files
+
+
+def gen_template(rng, big):
+    t = rng.random()
+    files = [_new_file(rng, 0, entry=True)]
+
+    def add(kind=None):
+        r = rng.random()
+        k = kind or ("xml" if r < 0.86 else "h5")
+        files.append(_new_file(rng, len(files), kind=k, others=files))
+        return files[-1]
+
+    def link(a, b, n=1):
+        for _ in range(n):
+            a["hrefs"].append(spell(rng, a["path"][:-1], b["path"]))
+    top = files[0]
+    if t < 0.34:                                   # k-way diamond over a shared file
+        shared = add()
+        for _ in range(rng.randint(2, 4)):
+            br = add()
+            link(top, br)
+            link(br, shared, n=rng.choice([1, 1, 2]))
+        if rng.random() < 0.3:
+            link(shared, top)                      # the grandchild includes the entry file
+        if rng.random() < 0.3:
+            link(shared, add())
+        if rng.random() < 0.3:
+            link(top, shared)
+        files[1], files[-1] = files[-1], files[1]  # the shared file need not be listed second
+    elif t < 0.62:                                 # ladder: every level includes lower ones
+        n = rng.randint(3, 7 if big else 5)
+        lv = [top] + [add() for _ in range(n - 1)]
+        for i in range(n - 1):
+            link(lv[i], lv[i + 1])
+            for j in range(i + 2, n):
+                if rng.random() < 0.7:
+                    link(lv[i], lv[j])
+            rng.shuffle(lv[i]["hrefs"])
+        if rng.random() < 0.25:
+            link(lv[-1], lv[rng.randint(0, n - 2)])    # close a cycle
+    elif t < 0.80:                                 # one file includes another several times, variously spelled
+        x = add()
+        link(top, x, n=rng.randint(2, 4))
+        if rng.random() < 0.5:
+            top["hrefs"].append(list(top["hrefs"][0]))           # the very same spelling twice
+        if rng.random() < 0.5:
+            y = add()
+            link(x, y, n=2)
+            link(top, y)
+        if rng.random() < 0.3:
+            link(x, top)
+    elif t < 0.88:                                 # a plain href that names one file from the working directory and
+        a = add("xml")                             # another one from the including file's directory
+        x = add("xml")
+        x["path"] = a["path"][:-1] + ["sh%d.nml" % len(files)]
+        link(top, a)
+        a["hrefs"].append([x["path"][-1]])
+        others = [d for d in DIRS[:4] if d != a["path"][:-1]]
+        shadow = add("xml")
+        shadow["path"] = rng.choice(others) + [x["path"][-1]]
+        files[0]["_cwd"] = shadow["path"][:-1]
+        if rng.random() < 0.5:
+            link(top, shadow)
+    else:                                          # an HDF5 file and its includer share an include
+        h = add("h5")
+        s = add("xml")
+        link(h, s)
+        order = [h, s] if rng.random() < 0.5 else [s, h]
+        for o in order:
+            link(top, o)
+        if rng.random() < 0.4:
+            link(s, add())
+        if rng.random() < 0.12:
+            link(s, top)                           # cycle through the HDF5 file (known finding today)
+    return files
+
+
+def gen_case(rng, big=False):
+    while True:
+        files = gen_template(rng, big) if rng.random() < 0.5 else gen_random(rng, big)
+        if len({tuple(f["path"]) for f in files}) == len(files):
+            break
+    ids = ["c%d" % k for k in range(rng.randint(2, 8))]
+    rich = rng.random() < 0.7
+    for i, f in enumerate(files):
+        f["comps"] = _comps(rng, i, ids, rich)
+    # the entry file is files[0]; make sure it still is after template shuffles
+    cwds = [files[0].pop("_cwd", None) or rng.choice(DIRS), ["elsewhere"]]
+    r = rng.random()
+    entry = "file"
+    if files[0]["kind"] == "xml" and r < 0.24:
+        entry = "string"
+    elif r < 0.30:
+        entry = "internal"
+    elif r < 0.36:
+        entry = "noinc"
+    case = {"fs": files, "cwds": cwds, "entry": entry, "base_given": rng.random() < 0.8,
+            "spelling": rng.choice(["abs", "abs", "rel", "dotted"]),
+            # get_summary() reads with optimized=True: an HDF5 entry file then goes through the parser's other branch
+            "optimized": files[0]["kind"] == "h5" and entry in ("file", "noinc") and rng.random() < 0.5}
+    return fix_hrefs(case)
 
 
 # ---------------------------------------------------------------- real library
+def href_text(h, root):
+    if is_abs(h):
+        return root + "/" + "/".join(h[1:])
+    return "/".join(h)
+
+
 def materialise(case, root):
     import neuroml as n
     import neuroml.writers as w
@@ -109,10 +320,14 @@ def materialise(case, root):
     for f in case["fs"]:
         doc = n.NeuroMLDocument(id="doc_" + f["path"][-1].split(".")[0])
         for h in f["hrefs"]:
-            doc.includes.append(n.IncludeType(href="/".join(h)))
-        for (l, cid, pay) in f["comps"]:
-            getattr(doc, l).append(_mk(l, cid, pay))
+            doc.includes.append(n.IncludeType(href=href_text(h, root)))
+        for (l, kind, cid, pay) in f["comps"]:
+            getattr(doc, l).append(_mk(l, kind, cid, pay))
         p = os.path.join(root, *f["path"])
+        if case.get("optimized") and f is case["fs"][0]:
+            net = n.Network(id="net")               # the optimized HDF5 reader needs a network to be present
+            net.populations.append(n.Population(id="pop", component="c0", size=1))
+            doc.networks.append(net)
         if f["kind"] == "h5":
             w.NeuroMLHdf5Writer.write(doc, p)
         else:
@@ -121,10 +336,59 @@ def materialise(case, root):
 
 def dump_doc(doc):
     out = []
-    for l in sorted(LISTS):
+    for l in ALL_LISTS:
         for c in getattr(doc, l):
-            out.append([l, c.id, c.notes])
+            if l == "properties":
+                out.append([l, "noid", "", c.tag])
+            elif l == "ComponentType":
+                out.append([l, "noid", "", c.name])
+            elif c.id is None:
+                out.append([l, "none", "", c.notes])
+            else:
+                out.append([l, "id", c.id, c.notes])
     return out
+
+
+class ReadLog:
+    """records every file handed to the two file parsers while a read is in progress"""
+
+    def __init__(self, root):
+        self.root, self.log, self.saved = root, [], []
+
+    def _wrap(self, cls):
+        orig = cls.__dict__["load"]
+        log, root = self.log, self.root
+
+        def load(c, src, *a, **k):
+            try:
+                log.append(norm(os.path.relpath(os.path.abspath(src), root).split("/")))
+            except Exception:
+                log.append(["?"])
+            return orig.__func__(c, src, *a, **k)
+        self.saved.append((cls, orig))
+        cls.load = classmethod(load)
+
+    def __enter__(self):
+        import neuroml.loaders as L
+        self._wrap(L.NeuroMLLoader)
+        self._wrap(L.NeuroMLHdf5Loader)
+        return self
+
+    def __exit__(self, *a):
+        for cls, orig in self.saved:
+            cls.load = orig
+
+
+def entry_text(case, root, cwd):
+    f0 = case["fs"][0]
+    p = os.path.join(root, *f0["path"])
+    sp = case.get("spelling", "abs")
+    if sp == "rel":
+        return os.path.relpath(p, os.path.join(root, *cwd))
+    if sp == "dotted":
+        d = f0["path"][:-1]
+        return os.path.join(root, *d[:-1], ".", d[-1], "..", d[-1], f0["path"][-1])
+    return p
 
 
 def run_real(case, root, cwd):
@@ -132,19 +396,28 @@ def run_real(case, root, cwd):
     old = os.getcwd()
     os.chdir(os.path.join(root, *cwd))
     lim = sys.getrecursionlimit()
-    sys.setrecursionlimit(400)
+    sys.setrecursionlimit(600)
+    rl = ReadLog(root)
     try:
         f0 = case["fs"][0]
         p = os.path.join(root, *f0["path"])
         try:
-            if case["entry"] == "file":
-                doc = L.read_neuroml2_file(p, include_includes=True)
-            else:
-                with open(p) as fh:
-                    text = fh.read()
-                base = os.path.dirname(p) if case["base_given"] else None
-                doc = L.read_neuroml2_string(text, include_includes=True, base_path=base)
-            return {"res": "ok", "doc": dump_doc(doc), "includes_left": len(doc.includes)}
+            with rl:
+                opt = bool(case.get("optimized"))
+                if case["entry"] == "file":
+                    doc = L.read_neuroml2_file(entry_text(case, root, cwd), include_includes=True, optimized=opt)
+                elif case["entry"] == "noinc":
+                    doc = L.read_neuroml2_file(entry_text(case, root, cwd), include_includes=False, optimized=opt)
+                elif case["entry"] == "internal":
+                    if not os.path.isfile(p):
+                        raise SystemExit()
+                    doc = L._read_neuroml2(p, include_includes=True)
+                else:
+                    with open(p) as fh:
+                        text = fh.read()
+                    base = os.path.dirname(p) if case["base_given"] else None
+                    doc = L.read_neuroml2_string(text, include_includes=True, base_path=base)
+            return {"res": "ok", "doc": dump_doc(doc), "log": rl.log, "includes_left": len(doc.includes)}
         except RecursionError:
             return {"res": "outOfFuel"}
         except SystemExit:
@@ -168,171 +441,296 @@ def run_real(case, root, cwd):
             pass
 
 
+_SH = None
+_SH_TRANSLATED = "unset"
+
+
+def _translator():
+    tdir = os.path.join(fw.VERIF, "translators")
+    if tdir not in sys.path:
+        sys.path.insert(0, tdir)
+    import include_extract
+    return include_extract
+
+
+def regenerate(ctx):
+    """translator step: the include-handling code of fw.REPO's current tree -> Gen/IncludeShape.lean (`sh`, `genSameId`);
+    every statement of the anchored functions that is not the modelled one is a gap"""
+    global _SH_TRANSLATED
+    sh, gaps = _translator().regenerate(fw.REPO, os.path.join(fw.LEAN, "NmlVerif", "Gen", "IncludeShape.lean"))
+    _SH_TRANSLATED = sh
+    return gaps
+
+
+def probe_shares_list():
+    import neuroml.loaders as L
+    try:
+        return "already_included" in inspect.signature(L.NeuroMLHdf5Loader.load).parameters
+    except Exception:
+        return False
+
+
+def tree_shares_list():
+    """does the tree under test pass `already_included` through to the HDF5 loader (the proposed repair)?  Decided by
+    the translator from the source; when it had to refuse, by looking at the loaded library"""
+    global _SH, _SH_TRANSLATED
+    if _SH is None:
+        if _SH_TRANSLATED == "unset":              # replay: no regenerate step ran
+            try:
+                _SH_TRANSLATED = _translator().analyse(fw.REPO)[0]
+            except Exception:
+                _SH_TRANSLATED = None
+        _SH = probe_shares_list() if _SH_TRANSLATED is None else bool(_SH_TRANSLATED)
+    return _SH
+
+
 # ---------------------------------------------------------------- model (Lean driver)
 def model_line(case, cwd):
     f0 = case["fs"][0]
-    fuel = len(case["fs"]) + sum(len(f["hrefs"]) for f in case["fs"]) + 3
-    j = {"fs": case["fs"], "cwd": cwd, "fuel": fuel}
-    if case["entry"] == "file":
-        j["entry_file"] = f0["path"]
-    else:
+    nh5 = sum(1 for f in case["fs"] if f["kind"] == "h5")
+    fuel = (nh5 + 2) * (len(case["fs"]) + 2) + 3
+    j = {"fs": case["fs"], "cwd": cwd, "fuel": fuel, "sh": tree_shares_list(), "mode": case["entry"]}
+    if case["entry"] == "string":
         j["base"] = f0["path"][:-1] if case["base_given"] else cwd
         j["hrefs"] = f0["hrefs"]
         j["comps"] = f0["comps"]
+    else:
+        j["entry_file"] = f0["path"]
     return json.dumps(j)
 
 
-def canon_model(r):
+def canon_model(r, case):
     if r.get("res") != "ok":
         return {"res": r.get("res", "error:" + str(r))}
     doc = sorted(r["doc"], key=lambda c: c[0])  # stable: by list name, in-list order kept
-    return {"res": "ok", "doc": doc}
+    left = len(case["fs"][0]["hrefs"]) if (case["entry"] == "noinc" and case["fs"][0]["kind"] != "h5") else 0
+    return {"res": "ok", "doc": doc, "log": r["log"], "includes_left": left}
 
 
 # ---------------------------------------------------------------- oracle (independent of the Lean model)
-def norm(parts):
-    acc = []
-    for c in parts:
-        if c in (".", ""):
-            continue
-        if c == "..":
-            acc = acc[:-1]
-        else:
-            acc.append(c)
-    return acc
+def ext_kind(path):
+    s = path[-1]
+    if s.endswith(".nml.h5"):
+        return "h5"
+    if s.endswith(".nml") or s.endswith(".xml"):
+        return "xml"
+    return "other"
 
 
 def oracle(case, cwd):
-    """expected outcome by the property's own words: union over reachable files, once per (list,id)"""
+    """expected outcome by the property's own words: every file reachable through include links, once"""
     fsd = {tuple(f["path"]): f for f in case["fs"]}
 
     def resolve(base, href):
-        a = tuple(norm(cwd + href))
+        a = tuple(norm(join(cwd, href)))
         if a in fsd:
             return a
-        return tuple(norm(base + href))
-    f0 = case["fs"][0]
-    start_base = f0["path"][:-1] if (case["entry"] == "file" or case["base_given"]) else cwd
-    seen, order, bad = set(), [], None
-    h5_on_cycle = False
-    stack = [(tuple(f0["path"]) if case["entry"] == "file" else None, start_base, f0)]
-    if case["entry"] == "file":
-        seen.add(tuple(f0["path"]))
-    keys = set((c[0], c[1]) for c in f0["comps"])
-    todo = [(start_base, f0)]
-    while todo:
-        base, f = todo.pop()
-        for h in f["hrefs"]:
-            t = resolve(base, h)
+        return tuple(norm(join(base, href)))
+
+    def succ(t):
+        return [resolve(list(t[:-1]), h) for h in fsd[t]["hrefs"]]
+
+    def closure(starts):
+        seen, todo, bad = set(), list(starts), False
+        while todo:
+            t = todo.pop()
             if t in seen:
                 continue
             seen.add(t)
-            if t not in fsd:
-                bad = bad or "error"
+            if t not in fsd or ext_kind(t) == "other":
+                bad = True
                 continue
-            g = fsd[t]
-            if g["kind"] == "other":
-                bad = bad or "error"
-                continue
-            keys |= set((c[0], c[1]) for c in g["comps"])
-            todo.append((list(t[:-1]), g))
-    # does an include cycle pass through an HDF5 file (reachable)?
-    reach = [fsd[t] for t in seen if t in fsd] + [f0]
-    for g in reach:
-        if g["kind"] != "h5":
+            todo.extend(succ(t))
+        return seen, bad
+    f0 = case["fs"][0]
+    e = tuple(f0["path"])
+    if case["entry"] == "string":
+        base = f0["path"][:-1] if case["base_given"] else cwd
+        starts = [resolve(base, h) for h in f0["hrefs"]]
+        reach, bad = closure(starts)
+        roots_h5 = set()
+    else:
+        reach, bad = closure([e]) if e in fsd else ({e}, True)
+        if e in fsd and ext_kind(e) == "other":        # the entry file is parsed whatever its extension
+            bad = False
+            reach, bad = closure(succ(e))
+            reach.add(e)
+        roots_h5 = {e} if f0["kind"] == "h5" else set()
+    good = {t for t in reach if t in fsd and (ext_kind(t) != "other" or t == e)}
+    # HDF5 files on an include cycle; files below a non-entry HDF5 file that has includes
+    h5_on_cycle, below_h5 = False, set()
+    for t in good:
+        if fsd[t]["kind"] != "h5":
             continue
-        # can g reach itself?
-        s2, td = set(), [(g["path"][:-1], g)]
-        while td:
-            b, x = td.pop()
-            for h in x["hrefs"]:
-                t = resolve(b, h)
-                if t == tuple(g["path"]):
-                    h5_on_cycle = True
-                if t in s2 or t not in fsd:
-                    continue
-                s2.add(t)
-                td.append((list(t[:-1]), fsd[t]))
-    return {"keys": keys, "bad": bad, "h5_on_cycle": h5_on_cycle, "n_reach": len(seen)}
+        sub, _ = closure(succ(t))
+        if t in sub:
+            h5_on_cycle = True
+        if t not in roots_h5 and fsd[t]["hrefs"]:
+            below_h5 |= sub
+    idless = collections.Counter()
+    keys = set()
+    own = [f0["comps"]] if case["entry"] == "string" else []
+    for comps in own + [fsd[t]["comps"] for t in good]:
+        for c in comps:
+            if c[1] == "noid":
+                idless[(c[0], c[3])] += 1
+            else:
+                keys.add((c[0], c[1], c[2]))
+    src = collections.defaultdict(set)
+    for t in good:
+        for c in fsd[t]["comps"]:
+            if c[1] == "noid":
+                src[(c[0], c[3])].add(t)
+    return {"reads": good, "bad": bad, "h5_on_cycle": h5_on_cycle, "below_h5": below_h5, "idless": idless,
+            "keys": keys, "src": src, "n_reach": len(reach)}
 
 
-def resolves_from(case, cwd):
-    fsd = {tuple(f["path"]) for f in case["fs"]}
-    return any(tuple(norm(cwd + h)) in fsd for f in case["fs"] for h in f["hrefs"])
+def no_cwd_hit(case, cwd, orc):
+    """no (relative) href of a reachable file, or of the string itself, resolves from cwd"""
+    fsd = {tuple(f["path"]): f for f in case["fs"]}
+    hs = [h for t in orc["reads"] for h in fsd[t]["hrefs"]]
+    if case["entry"] == "string":
+        hs += case["fs"][0]["hrefs"]
+    return not any((not is_abs(h)) and tuple(norm(join(cwd, h))) in fsd for h in hs)
 
 
 def check_case(ctx, case, root, model_out):
     """model_out: list of canonical model results, one per cwd"""
-    results = []
+    results, orcs = [], []
     for ci, cwd in enumerate(case["cwds"]):
         real = run_real(case, root, cwd)
         results.append(real)
-        canon = {"fs": case["fs"], "cwd": cwd, "entry": case["entry"], "base": case["base_given"]}
+        canon = {"fs": case["fs"], "cwd": cwd, "entry": case["entry"], "base": case["base_given"],
+                 "sp": case.get("spelling"), "opt": bool(case.get("optimized"))}
         orc = oracle(case, cwd)
+        orcs.append(orc)
         ctx.seen(canon, nontrivial=orc["n_reach"] >= 2)
         ctx.count("res:" + real["res"].split(":")[0])
         ctx.count("entry:" + case["entry"])
-        # --- correspondence with the Lean model
+        where = {"case": case, "cwd": cwd}
+        # --- correspondence with the Lean model: outcome, document (order included), log of files parsed
         ctx.corr_evals += 1
         m = model_out[ci]
-        r_c = {"res": real["res"]} if real["res"] != "ok" else {"res": "ok", "doc": real["doc"]}
-        if m != r_c:
-            # error kinds: the real code may hit a missing file and a bad extension in either order only through the
-            # same path as the model, so they must agree exactly
-            ctx.disagree("include-model", {"case": case, "cwd": cwd}, r_c, m)
+        if m != real:
+            ctx.disagree("include-model", where, real, m)
+        if case["entry"] in ("internal", "noinc"):
+            continue                      # outside the property's entry points: compared with the model only
         # --- full-property oracle on the real code
         if real["res"] == "outOfFuel":
             key = "C06:cycle-through-hdf5" if orc["h5_on_cycle"] else "C06:nontermination"
-            ctx.fail(key, "include resolution does not terminate (RecursionError)", {"case": case, "cwd": cwd})
-            continue
-        if orc["h5_on_cycle"]:
+            ctx.fail(key, "include resolution does not terminate (RecursionError)", where)
             continue
         if orc["bad"]:
             if real["res"] == "ok":
                 ctx.fail("C06:error-swallowed", "a missing / unreadable include was silently dropped",
-                         {"case": case, "cwd": cwd, "real": real})
+                         dict(where, real=real))
             continue
         if real["res"] != "ok":
             ctx.fail("C06:unexpected-error", "reading a well-formed include graph failed: %s" % real["res"],
-                     {"case": case, "cwd": cwd, "real": real})
+                     dict(where, real=real))
             continue
-        got = [(c[0], c[1]) for c in real["doc"]]
-        entry_keys = [(c[0], c[1]) for c in case["fs"][0]["comps"]]
-        if set(got) != orc["keys"]:
+        nreads = collections.Counter(tuple(p) for p in real["log"])
+        ctx.count("reads:max=%d" % min(max(nreads.values() or [0]), 3))
+        twice = sorted(t for t, k in nreads.items() if k > 1)
+        got_idless = collections.Counter((c[0], c[3]) for c in real["doc"] if c[1] == "noid")
+        got_keys = [(c[0], c[1], c[2]) for c in real["doc"] if c[1] != "noid"]
+        own = case["fs"][0]["comps"]
+        entry_keys = [(c[0], c[1], c[2]) for c in own if c[1] != "noid"]
+        if sum(got_idless.values()):
+            ctx.count("idless-in-result")
+        if twice:
+            through = all(t in orc["below_h5"] for t in twice)
+            ctx.fail("C06:twice-through-hdf5" if through else "C06:file-read-twice",
+                     "a file reachable through several include paths was read %s times" % max(nreads.values()),
+                     dict(where, read_twice=["/".join(t) for t in twice]))
+        elif set(nreads) != orc["reads"]:
+            ctx.fail("C06:reads-not-reachable-set", "the files read are not the files reachable through include links",
+                     dict(where, not_read=sorted("/".join(t) for t in orc["reads"] - set(nreads)),
+                          extra=sorted("/".join(t) for t in set(nreads) - orc["reads"])))
+        elif got_idless != orc["idless"]:
+            surplus = {k for k in got_idless if got_idless[k] > orc["idless"].get(k, 0)}
+            lost = {k for k in orc["idless"] if got_idless.get(k, 0) < orc["idless"][k]}
+            through = bool(surplus) and not lost and all(orc["src"][k] & orc["below_h5"] for k in surplus)
+            ctx.fail("C06:twice-through-hdf5" if through else "C06:idless-count",
+                     "an element without an id does not occur once per reachable file that holds it",
+                     dict(where, got=sorted([list(k), v] for k, v in got_idless.items()),
+                          expected=sorted([list(k), v] for k, v in orc["idless"].items())))
+        elif set(got_keys) != orc["keys"]:
             ctx.fail("C06:union-mismatch", "result is not the union over reachable files",
-                     {"case": case, "cwd": cwd, "missing": sorted(orc["keys"] - set(got)),
-                      "extra": sorted(set(got) - orc["keys"])})
-        elif len(set(entry_keys)) == len(entry_keys) and len(got) != len(set(got)):
-            ctx.fail("C06:duplicate-id", "a component id appears twice in one list", {"case": case, "cwd": cwd})
+                     dict(where, missing=sorted(orc["keys"] - set(got_keys)), extra=sorted(set(got_keys) - orc["keys"])))
+        elif ((len(set(entry_keys)) == len(entry_keys) or case["fs"][0]["kind"] == "h5")
+              and len(got_keys) != len(set(got_keys))):
+            ctx.fail("C06:duplicate-id", "a component id appears twice in one list", where)
         elif real["includes_left"]:
-            ctx.fail("C06:includes-left", "include entries left in the result", {"case": case, "cwd": cwd})
-    # cwd independence
-    if (not resolves_from(case, case["cwds"][0]) and not resolves_from(case, case["cwds"][1])
-            and (case["entry"] == "file" or case["base_given"])):
+            ctx.fail("C06:includes-left", "include entries left in the result", where)
+    # cwd independence: every outcome (document, order, files read, error) is the same
+    if (case["entry"] == "file" or (case["entry"] == "string" and case["base_given"])) and \
+            no_cwd_hit(case, case["cwds"][0], orcs[0]) and no_cwd_hit(case, case["cwds"][1], orcs[1]):
         ctx.count("cwd-pair-compared")
-        if results[0] != results[1]:
+        if results[0] != results[1] and not (orcs[0]["h5_on_cycle"] and "outOfFuel" in (results[0]["res"], results[1]["res"])):
             ctx.fail("C06:cwd-dependence", "result depends on the working directory",
                      {"case": case, "results": results})
 
 
+def _f(path, kind, hrefs, comps):
+    return {"path": path, "kind": kind, "hrefs": hrefs, "comps": comps}
+
+
 CORPUS = [
-    # a.nml <-> b.nml two-cycle (was: unbounded recursion before the fix)
-    {"fs": [{"path": ["r", "f0.nml"], "kind": "xml", "hrefs": [["f1.nml"]], "comps": [["izhikevich_cells", "c0", "from_f0"]]},
-            {"path": ["r", "f1.nml"], "kind": "xml", "hrefs": [["f0.nml"]], "comps": [["izhikevich_cells", "c1", "from_f1"]]}],
-     "cwds": [["r"], ["elsewhere"]], "entry": "file", "base_given": True},
+    # a.nml <-> b.nml two-cycle (was: unbounded recursion before the fix 5bb970b)
+    {"fs": [_f(["r", "f0.nml"], "xml", [["f1.nml"]], [["izhikevich_cells", "id", "c0", "from_f0"]]),
+            _f(["r", "f1.nml"], "xml", [["f0.nml"]], [["izhikevich_cells", "id", "c1", "from_f1"]])],
+     "cwds": [["r"], ["elsewhere"]], "entry": "file", "base_given": True, "spelling": "abs"},
     # self loop
-    {"fs": [{"path": ["r", "f0.nml"], "kind": "xml", "hrefs": [["f0.nml"], [".", "f0.nml"]], "comps": [["iaf_cells", "c0", "from_f0"]]}],
-     "cwds": [["r", "sub"], ["elsewhere"]], "entry": "file", "base_given": True},
+    {"fs": [_f(["r", "f0.nml"], "xml", [["f0.nml"], [".", "f0.nml"]], [["iaf_cells", "id", "c0", "from_f0"]])],
+     "cwds": [["r", "sub"], ["elsewhere"]], "entry": "file", "base_given": True, "spelling": "rel"},
     # diamond with colliding ids, nested dirs, string entry
-    {"fs": [{"path": ["r", "f0.nml"], "kind": "xml", "hrefs": [["sub", "f1.nml"], ["other", "f2.nml"]], "comps": [["izhikevich_cells", "c0", "from_f0"]]},
-            {"path": ["r", "sub", "f1.nml"], "kind": "xml", "hrefs": [["deep", "f3.nml"]], "comps": [["izhikevich_cells", "c0", "from_f1"], ["iaf_cells", "c1", "from_f1"]]},
-            {"path": ["r", "other", "f2.nml"], "kind": "xml", "hrefs": [["..", "sub", "deep", "f3.nml"]], "comps": [["iaf_cells", "c1", "from_f2"]]},
-            {"path": ["r", "sub", "deep", "f3.nml"], "kind": "xml", "hrefs": [], "comps": [["pulse_generators", "c2", "from_f3"]]}],
-     "cwds": [["r", "other"], ["elsewhere"]], "entry": "string", "base_given": True},
-    # KNOWN FINDING: cycle through an HDF5 file
-    {"fs": [{"path": ["r", "f0.nml"], "kind": "xml", "hrefs": [["f1.nml.h5"]], "comps": []},
-            {"path": ["r", "f1.nml.h5"], "kind": "h5", "hrefs": [["f0.nml"]], "comps": [["izhikevich_cells", "c0", "from_f1"]]}],
-     "cwds": [["r"], ["elsewhere"]], "entry": "file", "base_given": True},
+    {"fs": [_f(["r", "f0.nml"], "xml", [["sub", "f1.nml"], ["other", "f2.nml"]], [["izhikevich_cells", "id", "c0", "from_f0"]]),
+            _f(["r", "sub", "f1.nml"], "xml", [["deep", "f3.nml"]],
+               [["izhikevich_cells", "id", "c0", "from_f1"], ["iaf_cells", "id", "c1", "from_f1"]]),
+            _f(["r", "other", "f2.nml"], "xml", [["..", "sub", "deep", "f3.nml"]], [["iaf_cells", "id", "c1", "from_f2"]]),
+            _f(["r", "sub", "deep", "f3.nml"], "xml", [], [["pulse_generators", "id", "c2", "from_f3"]])],
+     "cwds": [["r", "other"], ["elsewhere"]], "entry": "string", "base_given": True, "spelling": "abs"},
+    # KNOWN FINDING (today's tree): cycle through an HDF5 file
+    {"fs": [_f(["r", "f0.nml"], "xml", [["f1.nml.h5"]], []),
+            _f(["r", "f1.nml.h5"], "h5", [["f0.nml"]], [["izhikevich_cells", "id", "c0", "from_f1"]])],
+     "cwds": [["r"], ["elsewhere"]], "entry": "file", "base_given": True, "spelling": "abs"},
+    # KNOWN FINDING (today's tree): a file included directly and by an included HDF5 file is read twice
+    {"fs": [_f(["r", "f0.nml"], "xml", [["f1.nml.h5"], ["sub", "f2.nml"]], [["properties", "noid", "", "p0"]]),
+            _f(["r", "f1.nml.h5"], "h5", [["sub", "f2.nml"]], [["properties", "noid", "", "p1"]]),
+            _f(["r", "sub", "f2.nml"], "xml", [], [["properties", "noid", "", "p2"], ["iaf_cells", "id", "c0", "from_f2"]])],
+     "cwds": [["r", "sub"], ["elsewhere"]], "entry": "file", "base_given": True, "spelling": "abs"},
+    # the diamond of seeded change C06-1: the shared file holds elements without an id, an id, and a missing id;
+    # it is spelled differently by its two includers and includes the entry file
+    {"fs": [_f(["r", "f0.nml"], "xml", [["sub", "f1.nml"], [".", "other", "f2.nml"]],
+               [["iaf_cells", "id", "top", "from_f0"], ["properties", "noid", "", SHARED_TAG]]),
+            _f(["r", "sub", "f1.nml"], "xml", [["..", "sub", "deep", "f3.nml"]], [["pulse_generators", "id", "pg", "from_f1"]]),
+            _f(["r", "other", "f2.nml"], "xml", [["", "r", "sub", "deep", "f3.nml"], ["..", "sub", "deep", "f3.nml"]],
+               [["pulse_generators", "id", "pg", "from_f2"], ["pulse_generators", "none", "", "from_f2"]]),
+            _f(["r", "sub", "deep", "f3.nml"], "xml", [["..", "..", "f0.nml"]],
+               [["properties", "noid", "", "origin"], ["properties", "noid", "", SHARED_TAG],
+                ["ComponentType", "noid", "", "sharedType"], ["iaf_cells", "id", "leak", "from_f3"],
+                ["pulse_generators", "none", "", "from_f3"]])],
+     "cwds": [["r", "other"], ["elsewhere"]], "entry": "file", "base_given": True, "spelling": "dotted"},
+    # ladder: four levels, every level includes all lower ones; string entry without base_path
+    {"fs": [_f(["r", "f0.nml"], "xml", [["sub", "f2.xml"], ["f1.nml"], ["other", "f3.nml"]], [["ComponentType", "noid", "", "t0"]]),
+            _f(["r", "f1.nml"], "xml", [["other", "f3.nml"], ["sub", "f2.xml"]], [["ComponentType", "noid", "", "t1"]]),
+            _f(["r", "sub", "f2.xml"], "xml", [["..", "other", "f3.nml"]], [["ComponentType", "noid", "", "t2"]]),
+            _f(["r", "other", "f3.nml"], "xml", [], [["ComponentType", "noid", "", "t3"], ["properties", "noid", "", "t3"]])],
+     "cwds": [["r"], ["elsewhere"]], "entry": "string", "base_given": False, "spelling": "abs"},
+    # the same include written three times; include_includes=False and the internal entry point
+    {"fs": [_f(["r", "sub", "f0.nml"], "xml", [["f1.nml"], ["f1.nml"], ["deep", "..", "f1.nml"], ["f0.nml"]],
+               [["properties", "noid", "", "p0"]]),
+            _f(["r", "sub", "f1.nml"], "xml", [], [["properties", "noid", "", "p1"]])],
+     "cwds": [["r", "sub"], ["elsewhere"]], "entry": "internal", "base_given": True, "spelling": "abs"},
+    {"fs": [_f(["r", "sub", "f0.nml"], "xml", [["f1.nml"], ["f1.nml"]], [["properties", "noid", "", "p0"]]),
+            _f(["r", "sub", "f1.nml"], "xml", [], [["properties", "noid", "", "p1"]])],
+     "cwds": [["r", "sub"], ["elsewhere"]], "entry": "noinc", "base_given": True, "spelling": "abs"},
+    # HDF5 entry file whose embedded XML includes an XML file that includes a second HDF5 file (a leaf)
+    {"fs": [_f(["r", "f0.nml.h5"], "h5", [["sub", "f1.nml"]], [["iaf_cells", "id", "c0", "from_f0"], ["iaf_cells", "id", "c0", "dup_in_f0"]]),
+            _f(["r", "sub", "f1.nml"], "xml", [["..", "other", "f2.nml.h5"], ["..", "f0.nml.h5"]][:1], [["properties", "noid", "", "p1"]]),
+            _f(["r", "other", "f2.nml.h5"], "h5", [], [["properties", "noid", "", "p2"], ["iaf_cells", "id", "c0", "from_f2"]])],
+     "cwds": [["r"], ["elsewhere"]], "entry": "file", "base_given": True, "spelling": "rel", "optimized": True},
 ]
 
 
@@ -346,22 +744,37 @@ def run_cases(ctx, cases):
         ctx.disagree("driver", "driver failed rc=%s" % rc, "\n".join(out[-5:]), None)
         mouts = [{"res": "driver-error"}] * len(lines)
     else:
-        mouts = [canon_model(json.loads(l)) for l in out]
+        mouts, k = [], 0
+        for c in cases:
+            for _ in c["cwds"]:
+                mouts.append(canon_model(json.loads(out[k]), c))
+                k += 1
     k = 0
+    ctx.count("tree:hdf5-loader-shares-include-list" if tree_shares_list() else "tree:hdf5-parser-own-include-list")
+    if _SH_TRANSLATED is not None and bool(_SH_TRANSLATED) != probe_shares_list():
+        ctx.disagree("shape", "translator and loaded library disagree on how HDF5 includes are resolved",
+                     probe_shares_list(), _SH_TRANSLATED)
     for c in cases:
-        root = tempfile.mkdtemp(prefix="verif_c06_")
+        root = os.path.realpath(tempfile.mkdtemp(prefix="verif_c06_"))
         try:
             materialise(c, root)
             check_case(ctx, c, root, mouts[k:k + len(c["cwds"])])
         finally:
             shutil.rmtree(root, ignore_errors=True)
         k += len(c["cwds"])
+        ctx.count("files:%d" % min(len(c["fs"]), 8))
+        if any(f["kind"] == "h5" and f["hrefs"] for f in c["fs"][1:]):
+            ctx.count("has:included-hdf5-with-includes")
+        if any(is_abs(h) for f in c["fs"] for h in f["hrefs"]):
+            ctx.count("has:absolute-href")
+        if any(len({tuple(h) for h in f["hrefs"]}) < len(f["hrefs"]) for f in c["fs"]):
+            ctx.count("has:same-href-twice")
         ctx.sample({"files": [("/".join(f["path"]), ["/".join(h) for h in f["hrefs"]]) for f in c["fs"]],
                     "entry": c["entry"], "cwds": ["/".join(x) for x in c["cwds"]]})
 
 
 def run(ctx):
-    n = ctx.n(150, 1500) * ctx.search_mult
+    n = ctx.n(220, 2200) * ctx.search_mult
     cases = [json.loads(json.dumps(c)) for c in CORPUS]
     for i in range(n):
         cases.append(gen_case(ctx.rng, big=(ctx.tier == "thorough")))
